@@ -1,4 +1,4 @@
-(* C04 / C16: all templates in all contexts, all ordered pairs, by computation on the pipeline model. *)
+(* C04: all templates in all contexts, by computation on the pipeline model. *)
 From Coq Require Import NArith List Bool.
 From OQ3 Require Import gen.Templates Model.Accept.
 Import ListNotations.
@@ -10,13 +10,3 @@ Lemma known_rejected_everywhere :
   forallb (fun c => forallb (fun i => negb (k_c04_rejected i) || negb (accepted_in c i)) ids) ctx_ids = true.
 Proof. vm_compute. reflexivity. Qed.
 
-Lemma pairs_compose_top : forallb (fun '(i, j) => k_c16 i j || composes_top i j) id_pairs = true.
-Proof. vm_compute. reflexivity. Qed.
-Lemma pairs_compose_block : forallb (fun '(i, j) => k_c16 i j || composes_block i j) id_pairs = true.
-Proof. vm_compute. reflexivity. Qed.
-
-(* witnesses of the two C16 classes *)
-Lemma let_context_refuted : composes_top T_expr_call T_alias_slice = false /\ composes_block T_decl_int T_alias_slice = false.
-Proof. vm_compute. auto. Qed.
-Lemma assignment_glues_operator_refuted : composes_top T_assign_lit T_expr_neg = false.
-Proof. vm_compute. auto. Qed.
